@@ -814,6 +814,7 @@ var advSenders = []*actor.PID{
 	actor.NewPID("10.0.0.1:4000", longPrefix+"player/alice"), actor.NewPID("10.0.0.1:4000", longPrefix+"player/bob"),
 	actor.NewPID("10.0.0.1:4000", "p"), actor.NewPID("10.0.0.1:4000", "p/q"),
 	actor.NewPID(wireAddr, "t/1"), // the PID of a target of the same batch as a sender
+	actor.NewPID("10.0.0.7:4000", "worker/1"), actor.NewPID("10.0.0.8:4000", "worker/1"), // the same id on two nodes
 }
 
 var advTargetIDs = []string{"t/1", longPrefix + "player/alice", longPrefix + "player/bob", "t/1/x"}
@@ -1000,7 +1001,7 @@ func wireRoundTripSeq(f *wireFixture, bs [][]wireMsg) (string, string) {
 
 func init() {
 	Register(&Job{Name: "C15/wire/adversarial-pids", Prop: "C15", Kind: "direct", Budget: 50, BudgetT: 300,
-		Desc: "all batches of length 1-2 over 4 targets x 12 senders chosen to be easily confused (incl. a sender that is also a target of the batch): the same address+id concatenation split elsewhere (around '/', ':' and NUL), PIDs of ~160 bytes that differ only in the last segment, a PID that is a prefix of another",
+		Desc: "all batches of length 1-2 over 4 targets x 14 senders chosen to be easily confused (incl. a sender that is also a target of the batch, and the same id on two addresses): the same address+id concatenation split elsewhere (around '/', ':' and NUL), PIDs of ~160 bytes that differ only in the last segment, a PID that is a prefix of another",
 		Run: wireRun(func(we *wireEnum, tier string) {
 			we.advBatches(1)
 			we.advBatches(2)
